@@ -49,6 +49,7 @@ var seqFuncs = []seqFunc{
 	{"pkg/llrp", "Client.handleIncoming", "llrp_Client_handleIncoming"},
 	{"pkg/llrp", "ackHandler.HandleMessage", "llrp_ackHandler_HandleMessage"},
 	{"pkg/llrp", "Client.send", "llrp_Client_send"},
+	{"pkg/llrp", "Client.handleOutgoing", "llrp_Client_handleOutgoing"},
 }
 
 // receivers of these types live in the World: their fields are read with World → T operations and their methods are
@@ -103,7 +104,26 @@ type sq struct {
 	named    []types.Object    // named results (variables; a bare return yields their current values)
 	closures []*ast.FuncLit    // deferred function literals, by index ("§CLOSURE§i" in a defers list)
 	conts    []func() string   // continuation stack: what follows the end of a deferred closure's body
+	breaks   []breakCtx        // enclosing breakable constructs, innermost last
+	litName  map[token.Pos]int // function literals used as values, numbered in source order
 }
+
+// breakCtx: what an unlabelled `break` leaves: a select (go on with the statements after it) or the innermost loop
+type breakCtx struct {
+	isSelect bool
+	rest     []ast.Stmt
+	defers   []string
+}
+
+// callCont: the end of a select arm when what follows the select was bound to a local continuation `k`
+type callCont struct {
+	ast.EmptyStmt
+	call string
+}
+
+// popBreak marks, inside a statement list, the end of a select arm's own statements: what follows belongs to the
+// enclosing construct again
+type popBreak struct{ ast.EmptyStmt }
 
 // loopCtx: a `for` loop becomes a recursive definition on a fuel argument; its parameters are the variables in scope at
 // loop entry that the loop or the statements after it use; the statements after the loop are translated inside the
@@ -116,6 +136,7 @@ type loopCtx struct {
 	exit   []ast.Stmt
 	defers []string
 	outer  []*loopCtx
+	breakDepth int
 }
 
 // escaped: &x of a local x is only understood when x is not used afterwards (the pointer and the Lean variable would
@@ -148,7 +169,7 @@ func go2seq(repo string) {
 				pkgs[f.pkg] = p
 			}
 			fd := findFunc(p, f.name)
-			s := &sq{p: p, fn: f.name, typeSet: map[string]bool{}, opIdx: map[string]bool{}, callName: map[token.Pos]string{}, selName: map[token.Pos]int{}, loopDone: map[string]string{},
+			s := &sq{p: p, fn: f.name, typeSet: map[string]bool{}, opIdx: map[string]bool{}, callName: map[token.Pos]string{}, selName: map[token.Pos]int{}, loopDone: map[string]string{}, litName: map[token.Pos]int{},
 				counters: map[string]int{}, names: map[types.Object]string{}, used: map[string]bool{}}
 			s.function(fd, f.lean, &b)
 		}); e != "" {
@@ -405,6 +426,10 @@ func (s *sq) function(fd *ast.FuncDecl, lean string, out *strings.Builder) {
 		if es, ok := n.(*ast.ExprStmt); ok && s.isLogStmt(es) {
 			return false
 		}
+		if fl, ok := n.(*ast.FuncLit); ok {
+			s.counters["closure"]++
+			s.litName[fl.Pos()] = s.counters["closure"]
+		}
 		if sl, ok := n.(*ast.SelectStmt); ok {
 			s.counters["select"]++
 			s.selName[sl.Pos()] = s.counters["select"]
@@ -450,6 +475,8 @@ func (s *sq) function(fd *ast.FuncDecl, lean string, out *strings.Builder) {
 		case *ast.RangeStmt:
 			s.bad(x, "range loop")
 		case *ast.SelectStmt, *ast.SendStmt:
+			s.usesW = true
+		case *ast.IndexExpr:
 			s.usesW = true
 		case *ast.UnaryExpr:
 			if x.Op == token.ARROW {
@@ -793,6 +820,14 @@ func (s *sq) assignPath(e ast.Expr, v string, pre *[]string) string {
 			s.bad(e, "assignment to the world receiver")
 		}
 		return fmt.Sprintf("let %s := %s", s.declare(o), v)
+	case *ast.IndexExpr:
+		m, mt := s.ex(x.X, pre)
+		mp, ok := mt.Underlying().(*types.Map)
+		if !ok {
+			s.bad(e, "assignment to an element of a non-map")
+		}
+		k, kt := s.ex(x.Index, pre)
+		return fmt.Sprintf("let w := %s w %s %s %s", s.op("mapset_"+s.anyName(mt, e), "§World → "+s.lt(mt, e)+" → "+s.lt(mp.Key(), e)+" → "+s.lt(mp.Elem(), e)+" → §World"), m, s.coerce(k, kt, mp.Key(), e), v)
 	case *ast.SelectorExpr:
 		sel, ok := s.p.info.Selections[x]
 		if !ok || sel.Kind() != types.FieldVal {
@@ -1068,6 +1103,26 @@ func (s *sq) ex(e ast.Expr, pre *[]string) (string, types.Type) {
 		b, _ := s.ex(x.Y, pre)
 		g := &g2l{p: s.p, fn: s.fn}
 		return g.binop(x.Op, a, b, s.ity(tv.Type, e), e), at
+	case *ast.FuncLit:
+		// a function literal used as a value: opaque, built by the environment from the variables it captures
+		used := s.usedObjects([]ast.Node{x.Body})
+		var caps []types.Object
+		for o := range s.names {
+			if used[o] && o != s.worldRcv {
+				caps = append(caps, o)
+			}
+		}
+		sort.Slice(caps, func(i, j int) bool { return caps[i].Pos() < caps[j].Pos() })
+		sig := "§World"
+		args := ""
+		for _, o := range caps {
+			sig += " → " + s.lt(s.varType(o), x)
+			args += " " + s.names[o]
+		}
+		ft := tv.Type
+		n := s.fresh("fn")
+		*pre = append(*pre, fmt.Sprintf("let (w, %s) := %s w%s", n, s.op(fmt.Sprintf("closure_%d", s.litName[x.Pos()]), sig+" → §World × "+s.lt(ft, x)), args))
+		return n, ft
 	case *ast.IndexExpr:
 		// m[k] of a map (zero value when absent): the first component of the comma-ok lookup
 		m, mt := s.ex(x.X, pre)
@@ -1491,16 +1546,35 @@ func (s *sq) stmts(list []ast.Stmt, defers []string) string {
 	}
 	st, rest := list[0], list[1:]
 	switch x := st.(type) {
+	case *callCont:
+		return x.call
+	case *popBreak:
+		saved := s.breaks
+		if len(s.breaks) > 0 {
+			s.breaks = s.breaks[:len(s.breaks)-1]
+		}
+		r := s.stmts(rest, defers)
+		s.breaks = saved
+		return r
 	case *ast.ForStmt:
 		return s.forLoop(x, rest, defers)
 	case *ast.BranchStmt:
-		if x.Label != nil || len(s.loops) == 0 {
+		if x.Label != nil || (len(s.loops) == 0 && !(x.Tok == token.BREAK && len(s.breaks) > 0)) {
 			s.bad(x, "unsupported branch statement")
 		}
 		switch x.Tok {
 		case token.CONTINUE:
 			return s.continueLoop()
 		case token.BREAK:
+			if n := len(s.breaks); n > 0 && s.breaks[n-1].isSelect {
+				// leaves the select: go on with the statements after it
+				top := s.breaks[n-1]
+				saved := s.breaks
+				s.breaks = s.breaks[:n-1]
+				r := s.stmts(top.rest, top.defers)
+				s.breaks = saved
+				return r
+			}
 			return s.exitLoop()
 		}
 		s.bad(x, "unsupported branch statement %s", x.Tok)
@@ -2068,7 +2142,9 @@ func (s *sq) forLoop(x *ast.ForStmt, rest []ast.Stmt, defers []string) string {
 		}
 	}
 	saved, savedUsed := copyNames(s.names), copyUsed(s.used)
+	ctx.breakDepth = len(s.breaks)
 	s.loops = append(s.loops, ctx)
+	s.breaks = append(append([]breakCtx{}, s.breaks...), breakCtx{})
 	var cpre []string
 	cond := "true"
 	if x.Cond != nil {
@@ -2081,6 +2157,7 @@ func (s *sq) forLoop(x *ast.ForStmt, rest []ast.Stmt, defers []string) string {
 		exit = s.exitLoop() // `for { … }` ends only through return or break
 	}
 	s.loops = s.loops[:len(s.loops)-1]
+	s.breaks = s.breaks[:ctx.breakDepth]
 	s.names, s.used = saved, savedUsed
 	var sig []string
 	if s.usesW {
@@ -2119,6 +2196,11 @@ func (s *sq) continueLoop() string {
 	if ctx.post == nil || ctx.inPost {
 		return s.loopCall(ctx)
 	}
+	saveBreaks := s.breaks
+	if ctx.breakDepth+1 <= len(s.breaks) {
+		s.breaks = s.breaks[:ctx.breakDepth+1]
+	}
+	defer func() { s.breaks = saveBreaks }()
 	ctx.inPost = true
 	r := s.stmts([]ast.Stmt{ctx.post}, ctx.defers)
 	ctx.inPost = false
@@ -2130,6 +2212,11 @@ func (s *sq) exitLoop() string {
 	ctx := s.loops[len(s.loops)-1]
 	saveLoops := s.loops
 	s.loops = s.loops[:len(s.loops)-1]
+	saveBreaks := s.breaks
+	if ctx.breakDepth <= len(s.breaks) {
+		s.breaks = s.breaks[:ctx.breakDepth]
+	}
+	defer func() { s.breaks = saveBreaks }()
 	saved, savedUsed := copyNames(s.names), copyUsed(s.used)
 	savePost := ctx.inPost
 	ctx.inPost = false
@@ -2156,15 +2243,6 @@ func (s *sq) selectStmt(x *ast.SelectStmt, rest []ast.Stmt, defers []string) str
 	var args, argTs []string
 	for _, c := range x.Body.List {
 		cc := c.(*ast.CommClause)
-		for _, b := range cc.Body {
-			ast.Inspect(b, func(n ast.Node) bool {
-				if br, ok := n.(*ast.BranchStmt); ok && br.Tok == token.BREAK && br.Label == nil {
-					s.bad(br, "break inside a select")
-				}
-				_, lit := n.(*ast.FuncLit)
-				return !lit
-			})
-		}
 		if cc.Comm == nil {
 			def, hasDef = cc.Body, true
 			continue
@@ -2251,13 +2329,46 @@ func (s *sq) selectStmt(x *ast.SelectStmt, rest []ast.Stmt, defers []string) str
 	if len(alts) == 0 {
 		s.bad(x, "empty select")
 	}
+	// when two or more alternatives go on with the statements after the select, those statements are translated once,
+	// as a local continuation whose parameters are the World and the variables the alternatives assign
+	falls := 0
+	var armStmts []ast.Stmt
+	for _, a := range alts {
+		if fallsThrough(a.body) {
+			falls++
+		}
+		armStmts = append(armStmts, a.body...)
+	}
+	if falls >= 2 && len(rest) >= 2 && !s.inBranch {
+		byName := map[string]types.Object{}
+		for o, n := range s.names {
+			byName[n] = o
+		}
+		var ps, as []string
+		for _, n := range s.assigned(armStmts) {
+			if o := byName[n]; o != nil {
+				ps = append(ps, fmt.Sprintf("(%s : %s)", n, s.lt(s.varType(o), x)))
+				as = append(as, n)
+			}
+		}
+		kname := s.fresh("k")
+		saved, savedUsed := copyNames(s.names), copyUsed(s.used)
+		kbody := s.stmts(rest, defers)
+		s.names, s.used = saved, savedUsed
+		pre = append(pre, fmt.Sprintf("let %s := fun (w : §World) %s =>\n  %s", kname, strings.Join(ps, " "), indent(kbody)))
+		rest = []ast.Stmt{&callCont{call: kname + " w" + prefixEach(as)}}
+	}
 	var build func(i int) string
 	build = func(i int) string {
 		a := alts[i]
 		all := append([]ast.Stmt{}, a.body...)
 		if fallsThrough(a.body) {
+			all = append(all, &popBreak{})
 			all = append(all, rest...)
 		}
+		savedBreaks := s.breaks
+		s.breaks = append(append([]breakCtx{}, s.breaks...), breakCtx{isSelect: true, rest: rest, defers: defers})
+		defer func() { s.breaks = savedBreaks }()
 		saved, savedUsed := copyNames(s.names), copyUsed(s.used)
 		var bpre []string
 		if a.bind != "" {
